@@ -179,6 +179,26 @@ def split_gen(res):
 
 
 # ------------------------------------------------------------------ leg B: random deep trees
+def lamify(rng, t):
+    """some leaves become CUSTOM callables with the same meaning (anonymous functions: the library cannot tell two of
+    them apart by name), and now and then two sibling operands are custom callables with the same argument but a
+    different meaning"""
+    if t[0] == "leaf":
+        if gen.lam_ok(t[1]) and rng.random() < 0.6:
+            return ("leaf", dict(t[1], lam=True))
+        return t
+    if t[0] == "null":
+        return t
+    if rng.random() < 0.25:
+        v = rng.choice([1, 2, 3, "a", 2.5])
+        mk = lambda fn: ("leaf", {"datum": "value", "pre": rng.choice(["none", "none", "length"]), "fn": fn,   # noqa: E731
+                                  "actuals": [v], "akw": {}, "lam": True})
+        a, b = rng.sample(sorted(gen.LAM_FUNCS), 2)
+        pair = (rng.choice(["and", "or", "xor"]), mk(a), mk(b))
+        return (t[0], pair, lamify(rng, t[2])) if rng.random() < 0.5 else (t[0], lamify(rng, t[1]), pair)
+    return (t[0], lamify(rng, t[1]), lamify(rng, t[2]))
+
+
 def shared_tree_events(rng, n):
     """Build trees with the real operators from a small set of shared leaf objects; record
     combine results (projection + identity of operands afterwards) and filters."""
@@ -193,6 +213,8 @@ def shared_tree_events(rng, n):
         if kind == "index":
             kinds += [("index", "none")]
         t = gen.tree_recipe(rng, depth=rng.randint(1, 5), kinds=kinds, null_p=0.25)
+        if rng.random() < 0.3:
+            t = lamify(rng, t)
         want_map = kind == "key" or (kind == "value" and rng.random() < 0.5)
         docs = []
         for _k in range(2):
